@@ -3,6 +3,7 @@ package sshauth
 import (
 	"bytes"
 	"crypto"
+	"crypto/sha256"
 	"encoding/json"
 	"errors"
 	"fmt"
@@ -100,9 +101,55 @@ func (b *srvBuilder) result(o ra.Outcome, in *ssh.Permissions) (*ssh.Permissions
 	case "accept":
 		return p, nil
 	case "partial":
-		return p, &ssh.PartialSuccessError{Next: b.callbacks(o.Next)}
+		pe := &ssh.PartialSuccessError{Next: b.callbacks(o.Next)}
+		switch o.Shape {
+		case "banner":
+			return p, &ssh.BannerError{Err: pe, Message: "vf: more steps required\n"}
+		case "wrapf":
+			return p, fmt.Errorf("vf: wrapped: %w", pe)
+		case "join":
+			return p, errors.Join(errRejected, pe)
+		}
+		return p, pe
+	}
+	switch o.Shape {
+	case "banner":
+		return p, &ssh.BannerError{Err: errRejected, Message: "vf: denied\n"}
+	case "banner-empty":
+		return p, &ssh.BannerError{Message: "vf: message only\n"}
+	case "multi":
+		return p, &ssh.ServerAuthError{Errors: []error{errRejected, &ssh.PartialSuccessError{Next: b.callbacks(0)}}}
 	}
 	return p, errRejected
+}
+
+// fakeGSS is the harness's GSS-API mechanism: a token "vf-token:<name>"
+// establishes the source name <name>@VF in one round, the MIC is a hash.
+type fakeGSS struct{}
+
+func (fakeGSS) AcceptSecContext(token []byte) ([]byte, string, bool, error) {
+	t := string(token)
+	if t == "vf-token:u1" || t == "vf-token:u2" {
+		return nil, strings.TrimPrefix(t, "vf-token:") + "@VF", false, nil
+	}
+	return nil, "", false, errors.New("vf: security context refused")
+}
+func (fakeGSS) VerifyMIC(micField, micToken []byte) error {
+	if !bytes.Equal(micToken, gssMIC(micField)) {
+		return errors.New("vf: MIC does not verify")
+	}
+	return nil
+}
+func (fakeGSS) DeleteSecContext() error { return nil }
+
+func gssMIC(micField []byte) []byte {
+	h := sha256.Sum256(append([]byte("vf-mic:"), micField...))
+	return h[:]
+}
+
+// gssMICField is RFC 4462 section 3.5: string session id, byte 50, string user, string service, string "gssapi-with-mic".
+func gssMICField(session []byte, user, service string) []byte {
+	return (&refpeer.W{}).Str(session).Byte(refpeer.MsgUserAuthRequest).S(user).S(service).S("gssapi-with-mic").B
 }
 
 func (b *srvBuilder) callbacks(stage int) ssh.ServerAuthCallbacks {
@@ -149,6 +196,14 @@ func (b *srvBuilder) callbacks(stage int) ssh.ServerAuthCallbacks {
 			return p, err
 		}
 	}
+	if st.Gss.Present {
+		cb.GSSAPIWithMICConfig = &ssh.GSSAPIWithMICConfig{Server: fakeGSS{}, AllowLogin: func(c ssh.ConnMetadata, src string) (*ssh.Permissions, error) {
+			o := st.Gss.Lookup(c.User() + "|" + src)
+			p, err := b.result(o, nil)
+			b.log.add(inv{Stage: stage, Kind: "gssapi-with-mic", User: c.User(), Cred: src, Out: o, PermsOut: p})
+			return p, err
+		}}
+	}
 	return cb
 }
 
@@ -173,6 +228,7 @@ func (b *srvBuilder) config() *ssh.ServerConfig {
 	}
 	cb := b.callbacks(0)
 	cfg.PasswordCallback, cfg.PublicKeyCallback, cfg.KeyboardInteractiveCallback = cb.PasswordCallback, cb.PublicKeyCallback, cb.KeyboardInteractiveCallback
+	cfg.GSSAPIWithMICConfig = cb.GSSAPIWithMICConfig
 	if s.None.Present {
 		cfg.NoClientAuthCallback = func(c ssh.ConnMetadata) (*ssh.Permissions, error) {
 			o := s.None.Lookup(c.User())
@@ -256,6 +312,26 @@ func buildRequest(req *ra.Req, sessionID []byte) ([]byte, ra.Facts, error) {
 		}
 	case "keyboard-interactive":
 		w.S("").S("")
+	case "gssapi-with-mic":
+		krb5 := []byte{0x06, 0x09, 0x2a, 0x86, 0x48, 0x86, 0xf7, 0x12, 0x01, 0x02, 0x02}
+		spnego := []byte{0x06, 0x06, 0x2b, 0x06, 0x01, 0x05, 0x05, 0x02}
+		switch req.Gss {
+		case "#malformed":
+			w.U32(3)
+		case "#no-mech":
+			w.U32(0)
+		case "#other-mech":
+			w.U32(1).Str(spnego)
+		default:
+			w.U32(2).Str(spnego).Str(krb5)
+		}
+		if req.Gss == "u1" || req.Gss == "u2" || req.Gss == "#mic-session" || req.Gss == "#mic-user" {
+			f.GssSource = "u1@VF"
+			if req.Gss == "u2" {
+				f.GssSource = "u2@VF"
+			}
+			f.MICValid = req.Gss == "u1" || req.Gss == "u2"
+		}
 	case "publickey":
 		if req.Form == "empty" {
 			break
@@ -530,6 +606,29 @@ func runServerCase(cs *srvCase) (*srvTrace, error) {
 					if r.Err != nil || algo != req.Algo || !bytes.Equal(blob, ra.TestKeys().ByName[req.Key].Blob) {
 						st.Got = "other:pkok-mismatch"
 					}
+					break
+				}
+				if req.Method == "gssapi-with-mic" {
+					// GSSAPI_RESPONSE: send the token, then (if the context can be established) the MIC
+					token := "vf-token:u1"
+					switch req.Gss {
+					case "u2":
+						token = "vf-token:u2"
+					case "#bad-token":
+						token = "vf-token:bad"
+					}
+					c.WritePacket((&refpeer.W{}).Byte(61).S(token).B)
+					if req.Gss != "#bad-token" {
+						sess, user := append([]byte{}, c.SessionID...), req.User
+						switch req.Gss {
+						case "#mic-session":
+							sess[0] ^= 0x40
+						case "#mic-user":
+							user += "x"
+						}
+						c.WritePacket((&refpeer.W{}).Byte(66).Str(gssMIC(gssMICField(sess, user, req.ServiceName()))).B)
+					}
+					st.Rounds++
 					break
 				}
 				if req.Method != "keyboard-interactive" {
